@@ -132,6 +132,13 @@ pub struct HistCase {
     /// Some(L): run under RandomPolicy with memory limit L and an eviction-tolerant model
     #[serde(default)]
     pub evict_limit: Option<u64>,
+    /// run every command over a loopback connection to an in-process MemcacheTcpServer (one command
+    /// per round trip, under the same injected clock) instead of calling codec and handler directly
+    #[serde(default)]
+    pub tcp: bool,
+    /// clamp resolved value lengths (histories under real memory pressure size records relative to the limit)
+    #[serde(default)]
+    pub max_val: Option<usize>,
 }
 
 #[derive(Clone, Debug, Serialize, Deserialize, PartialEq, Eq, Hash)]
@@ -427,7 +434,7 @@ pub fn hist_strategy(cfg: &GenCfg) -> BoxedStrategy<HistCase> {
         pct(cfg.policy_random_pct),
         prop::sample::select(limits),
     )
-        .prop_map(|(keys, ops, probe, policy_random, limit)| HistCase { keys, ops, probe, policy_random, limit, evict_limit: None })
+        .prop_map(|(keys, ops, probe, policy_random, limit)| HistCase { keys, ops, probe, policy_random, limit, evict_limit: None, tcp: false, max_val: None })
         .boxed()
 }
 
@@ -478,8 +485,61 @@ impl HistResult {
     }
 }
 
+/// The same commands, one per round trip, through a real socket and the server's own connection
+/// handling (client_handler.rs, binary_connection.rs) in front of codec and handler.
+pub struct TcpBack {
+    pub server: crate::l3::Server,
+    pub client: crate::l3::Client,
+    _port: crate::l3::Port,
+}
+
+impl TcpBack {
+    pub fn start(case: &HistCase) -> Option<TcpBack> {
+        let port = crate::l3::alloc_port()?;
+        let evict_limit = match case.evict_limit {
+            Some(l) => Some(l),
+            None if case.policy_random => Some(1 << 62),
+            None => None,
+        };
+        let opts = crate::l3::ServerOpts { item_limit: case.limit, evict_limit, ..Default::default() };
+        let server = crate::l3::Server::start(port.port, opts).ok()?;
+        let client = crate::l3::Client::connect(port.port).ok()?;
+        Some(TcpBack { server, client, _port: port })
+    }
+
+    /// one command and a noop sentinel behind it; everything in front of the sentinel's answer is
+    /// the command's answer
+    pub fn exec(&mut self, bytes: &[u8]) -> crate::l1::ExecResult {
+        let mut res = crate::l1::ExecResult { out: vec![], requests: 1, decode_err: None, panic: None, leftover: 0, too_large: 0 };
+        let own = if bytes.len() >= 16 { u32::from_be_bytes([bytes[12], bytes[13], bytes[14], bytes[15]]) } else { 0 };
+        let sentinel = !own;
+        let mut all = bytes.to_vec();
+        all.extend_from_slice(&wire::Frame::new(wire::NOOP, &[], &[], &[], sentinel, 0).bytes());
+        let wait = std::time::Duration::from_secs(20);
+        if self.client.send_chunk(&all, wait) != crate::l3::Drain::Drained {
+            res.decode_err = Some("over TCP: the server did not take the request off the socket".into());
+            return res;
+        }
+        let ok = self.client.read_until(wait, |c| c.malformed.is_some() || c.resps.last().map_or(false, |r| r.opcode == wire::NOOP && r.opaque == sentinel));
+        if !ok || self.client.malformed.is_some() {
+            res.decode_err = Some(format!(
+                "over TCP: no complete answer (connection {}; {} responses parsed; {})",
+                if self.client.eof || self.client.reset { "closed by the server" } else { "open, silent for 20 s" },
+                self.client.resps.len(),
+                self.client.malformed.clone().unwrap_or_default()
+            ));
+            return res;
+        }
+        let n = self.client.rbuf.len() - self.client.unparsed();
+        res.out = self.client.rbuf[..n.saturating_sub(24)].to_vec();
+        self.client.clear_received();
+        res
+    }
+}
+
 pub struct Interp {
     pub l1: L1,
+    pub tcp: Option<TcpBack>,
     pub specs: SpecSet,
     pub keys: Vec<Vec<u8>>,
     pub pool: HashMap<Vec<u8>, Vec<u64>>,
@@ -538,13 +598,19 @@ impl Interp {
             None => Policy::None,
         };
         let l1 = L1::new(policy, case.limit);
+        let tcp = if case.tcp { TcpBack::start(case) } else { None };
+        let mut res = HistResult::default();
+        if case.tcp {
+            res.feat.insert(if tcp.is_some() { "over_tcp" } else { "tcp_unavailable_ran_in_process" }, 1);
+        }
         Interp {
             l1,
+            tcp,
             specs: if case.evict_limit.is_some() { SpecSet::evictable(case.limit) } else { SpecSet::new(case.limit) },
             keys: dedupe_keys(&case.keys),
             pool: HashMap::new(),
             opaque: 0x1000_0000,
-            res: HistResult::default(),
+            res,
             probe: case.probe,
             mut_seq: 0,
             last_mut: HashMap::new(),
@@ -552,7 +618,7 @@ impl Interp {
             owner,
             trace: if trace { Some(vec![]) } else { None },
             log: None,
-            max_val: None,
+            max_val: case.max_val,
             last: None,
         }
     }
@@ -651,7 +717,10 @@ impl Interp {
     pub fn exec_cmd(&mut self, at: usize, cmd: &Cmd, is_probe: bool, probe_of: Option<&Cmd>) -> Result<Option<Resp>, Fail> {
         let frame = cmd.frame();
         let bytes = frame.bytes();
-        let r = self.l1.exec(&bytes);
+        let r = match &mut self.tcp {
+            Some(t) => t.exec(&bytes),
+            None => self.l1.exec(&bytes),
+        };
         self.res.commands += 1;
         if let Some(l) = &mut self.log {
             l.push(Ev::Cmd { at, probe: is_probe, cmd: cmd.clone(), out: r.out.clone() });
@@ -974,6 +1043,9 @@ impl Interp {
                     AdvSel::Huge => 1u64 << 40,
                 };
                 self.l1.advance(dt);
+                if let Some(t) = &self.tcp {
+                    t.server.timer.add(dt);
+                }
                 self.specs.advance(dt);
                 if let Some(l) = &mut self.log {
                     l.push(Ev::Advance(dt));
